@@ -60,7 +60,15 @@ func (Profile) Extra(string, int64) []orch.Case { return nil }
 // nearMiss returns a URL that a lenient comparison would take for base.
 func nearMiss(base string, rng *rand.Rand) string {
 	i := strings.Index(base, "://") + 3
-	switch rng.Intn(6) {
+	switch rng.Intn(9) {
+	case 6:
+		// values that are not URLs at all for net/url (the configured value is compared as a string)
+		return []string{"https://sp:acs/", "http://[::1", "%zz", base + "%zz", "1https://sp.example.com/x", "https://sp example.com/acs", base + "\x7f", "://", "https://sp.example.com:99999999999/"}[rng.Intn(9)]
+	case 7:
+		// Unicode look-alikes under case folding (U+017F LATIN SMALL LETTER LONG S, U+212A KELVIN SIGN)
+		return strings.Replace(strings.Replace(base, "s", "\u017f", 1), "k", "\u212a", 1)
+	case 8:
+		return base[:i] + base[i:i+2] + "%2e" + base[i+3:] // percent-encoded dot in the host
 	case 0:
 		return base + "?next=//evil.example"
 	case 1:
